@@ -6,6 +6,17 @@ import MV.Props.C15Pump
 /-!
 # C15 — queues, ring buffers and unbounded channels are loss-free FIFOs
 
+Files of the property (all theorems live in `namespace MV.Props.C15`):
+* this file — `buffer.Ring` (`C15_ring_refines`, `C15_ring_inv`);
+* `C15Unbounded.lean` — `buffer.Unbounded` / `channels.UnboundedBacklog` (`C15_unbounded_refines`,
+  `C15_unbounded_fifo_any_use`);
+* `C15Queues.lean` — `queues.LFQueue` (`C15_msq_linearizable`, `C15_msq_quiescent`) and `queues.MPSC`
+  (`C15_mpsc_safe`, `C15_mpsc_pop_head`, `C15_mpsc_quiescent`), interleaving models;
+* `C15Pump.lean` — `buffer.RingUnbounded` (`C15_pump_lossless`, `C15_pump_mutex`,
+  `C15_pump_closed_accepts_nothing`), lock/cond/channel-level interleaving model;
+* `C15History.lean` — the `Bool` judges of the concurrent harness suites are consequences of the
+  above (`C15_msq_history_ok`, `C15_mpsc_history_ok`, `C15_unbounded_history_ok`).
+
 ## `buffer.Ring` (toolkit/buffer/ring.go)
 
 `C15_ring_refines`: for every initial capacity and *every* operation sequence
